@@ -1,5 +1,6 @@
 """C02 — path(f), getpath and updates agree on the positions a filter denotes: agreement of the three
 evaluators as tables over the term kinds (structural clauses)."""
+import json
 import re
 import time
 
@@ -67,6 +68,80 @@ def subterm_calls(body, binds):
     walk(body, f)
     return out
 
+
+
+def rule_position_helpers(facts, rid):
+    """Reader/updater agreement on the position helper (a first-party function that takes a `PosUsize`), per container kind.
+    Helpers are identified by their signature, not by their names."""
+    t6 = Rule(rid, "reading and updating position the same way: per container kind, `.[i:j]` (range) and `.[i:j] |= f` (map_range) pass the same single position helper "
+              "(byte strings, text strings and arrays each their own; text and byte strings different ones), and `.[i]` (index_opt) and `.[i] |= f` (map_index) on arrays "
+              "absolutise the index with the same helper", floor=8)
+    vv = dict(adt_variants(facts, "jaq_json::Val") or [])
+    if not vv:
+        t6.missing_anchor("jaq_json::Val")
+        return t6
+    V = lambda k: C(f"jaq_json::Val::{k}", *([ANY] * vv[k]))
+    INT = C("jaq_json::Val::Num", C("jaq_json::num::Num::Int", ANY))
+
+    def takes_pos(d):
+        hf = facts.hir_fn(d) if d and d.startswith("jaq_json::") else None
+        return hf is not None and any("PosUsize" in (p_.get("ty") or "") for p_ in hf.get("params", []))
+
+    def helpers_of(fn_rx, value, what):
+        fs = facts.hir_find(fn_rx, "jaq_json")
+        if len(fs) != 1:
+            t6.missing_anchor(what)
+            return None
+        f = fs[0]
+        inits = {}
+        for s in find(f["body"], lambda n: n.get("k") == "Let" and n.get("init") is not None):
+            for b in find(s["pat"], lambda n: n.get("k") == "Bind"):
+                inits[b["id"]] = s["init"]
+        for m in find(f["body"], lambda n: n.get("k") == "Match" and n.get("src") == "Normal" and "jaq_json::Val" in n["scrut_ty"]):
+            cs = candidates(m["arms"], value)
+            if not cs or cs[-1][1] != "sure":
+                continue
+            arm = m["arms"][cs[-1][0]]
+            if strip(arm["pat"]).get("k") == "Wild":
+                continue
+            helpers = set()
+            for n in find(arm["body"], lambda n: n.get("k") == "Path"):
+                d = n["path"].get("def")
+                if (n["path"].get("dk") or "") == "Fn" and takes_pos(d):
+                    helpers.add(d)
+                i = n["path"].get("id")
+                if i in inits:
+                    x = strip(inits[i])
+                    if x.get("k") == "Path" and (x["path"].get("dk") or "") == "Fn" and takes_pos(x["path"].get("def")):
+                        helpers.add(x["path"]["def"])
+                    if x.get("k") == "Closure":  # a local closure shared by several arms: the helpers it names itself
+                        for n2 in find(x, lambda n: n.get("k") == "Path" and (n["path"].get("dk") or "") == "Fn"):
+                            if takes_pos(n2["path"].get("def")):
+                                helpers.add(n2["path"]["def"])
+            return helpers, arm["sp"]
+        t6.violate(f"{what}/arm", f"{what}: no arm decides {value}")
+        return None
+
+    PAIRS = [("slice", k, r"^<jaq_json::Val as jaq_core::val::ValT>::range$", r"^<jaq_json::Val as jaq_core::val::ValT>::map_range$", V(k), V(k)) for k in ("BStr", "TStr", "Arr")]
+    PAIRS.append(("index", "Arr", r"^jaq_json::<impl jaq_json::Val>::index_opt$|^jaq_json::Val::index_opt$", r"^<jaq_json::Val as jaq_core::val::ValT>::map_index$", T(V("Arr"), INT), V("Arr")))
+    used = {}
+    for op, k, rrx, wrx, rval, wval in PAIRS:
+        r = helpers_of(rrx, rval, f"reader of {op} on {k}")
+        w = helpers_of(wrx, wval, f"updater of {op} on {k}")
+        for side, x in (("read", r), ("update", w)):
+            if x is None:
+                continue
+            t6.examined((op, k, side), True, {"operation": op, "container": k, "side": side, "position_helper": sorted(x[0])})
+            if len(x[0]) != 1:
+                t6.violate(f"{op}/{side}/{k}", f"{side} of {op} on {k} positions with {sorted(x[0]) or 'no position helper'}; exactly one helper per container kind is expected", where=x[1])
+        if r and w and r[0] != w[0]:
+            t6.violate(f"{op}/pair/{k}", f"{op} on {k}: reading positions with {sorted(r[0])} but updating positions with {sorted(w[0])}: the update would not change what the read yields", where=w[1])
+        used[(op, k)] = (r, w)
+    for side in (0, 1):
+        a, b = used.get(("slice", "TStr"), (None, None))[side], used.get(("slice", "BStr"), (None, None))[side]
+        if a and b and a[0] and a[0] == b[0]:
+            t6.violate(f"slice/unit/{side}", f"text strings and byte strings are sliced with the same helper {sorted(a[0])}: one of them counts in the wrong unit", where=a[1])
+    return t6
 
 def run(facts, tier):
     t0 = time.time()
@@ -284,43 +359,8 @@ def run(facts, tier):
                 t4.violate(f"part/{mode}/{k}", f"Part::{mode} on {k} uses value primitive(s) {prim}, expected [{WANTP[mode][k]}]", where=m[0]["arms"][cs[0][0]]["sp"])
     rules.append(t4.finish())
 
-    # ---------------- T2.6 read and update slice a string the same way
-    t6 = Rule("T2.6", "reading a slice and updating a slice use the same position helper per container kind (byte strings by bytes, text strings by characters, arrays by elements)", floor=6)
-    WANTS = {"BStr": "jaq_json::skip_take_bytes", "TStr": "jaq_json::skip_take_chars", "Arr": "jaq_json::skip_take"}
-    for fname in ("range", "map_range"):
-        f = facts.hir_fn(f"<jaq_json::Val as jaq_core::val::ValT>::{fname}")
-        if f is None:
-            t6.missing_anchor(f"<Val as ValT>::{fname}")
-            continue
-        inits = {}
-        for s in find(f["body"], lambda n: n.get("k") == "Let" and n.get("init") is not None):
-            for b in find(s["pat"], lambda n: n.get("k") == "Bind"):
-                inits[b["id"]] = s["init"]
-        ms = [m for m in find(f["body"], lambda n: n.get("k") == "Match" and n.get("src") == "Normal") if m["scrut_ty"].endswith("jaq_json::Val")]
-        if not ms:
-            t6.missing_anchor(f"match on self in {fname}")
-            continue
-        vv = dict(adt_variants(facts, "jaq_json::Val"))
-        for k, want in WANTS.items():
-            cs = candidates(ms[0]["arms"], C(f"jaq_json::Val::{k}", *([ANY] * vv[k])))
-            if not cs or cs[-1][1] != "sure":
-                t6.violate(f"{fname}/{k}", f"{fname}: no arm for {k}")
-                continue
-            body = ms[0]["arms"][cs[-1][0]]["body"]
-            helpers = set()
-            for n in find(body, lambda n: n.get("k") == "Path"):
-                d = n["path"].get("def")
-                if d and re.match(r"^jaq_json::skip_take\w*$", d):
-                    helpers.add(d)
-                i = n["path"].get("id")
-                if i in inits:
-                    x = strip(inits[i])
-                    if x.get("k") == "Path" and re.match(r"^jaq_json::skip_take\w*$", x["path"].get("def") or ""):
-                        helpers.add(x["path"]["def"])
-            t6.examined((fname, k), True, {"fn": fname, "container": k, "position_helper": sorted(helpers)})
-            if helpers != {want}:
-                t6.violate(f"{fname}/{k}", f"`{fname}` on {k} positions with {sorted(helpers) or 'no helper of its own'}; reading and updating must both use `{want.split('::')[-1]}`", where=ms[0]["arms"][cs[-1][0]]["sp"])
-    rules.append(t6.finish())
+    # ---------------- T2.6 read and update position the same way
+    rules.append(rule_position_helpers(facts, "T2.6").finish())
 
     # ---------------- T2.7 native twins
     t7 = Rule("T2.7", "the natives that exist in a value and a path version (first, last, limit, skip) are the same code up to the evaluator they call", floor=4)
